@@ -386,6 +386,10 @@ async fn typed(st: &ShardedActorState, k: &str) -> Typed {
     }
 }
 
+fn lookup(view: &[(String, Typed)], k: &str) -> Typed {
+    view.iter().find(|(x, _)| x == k).map(|(_, t)| t.clone()).unwrap_or(Typed::Missing)
+}
+
 fn show_dump(d: &[(String, Typed)]) -> String {
     let live: Vec<&(String, Typed)> = d.iter().filter(|(_, t)| *t != Typed::Missing).collect();
     let mut s = live.len().to_string();
@@ -488,27 +492,64 @@ impl World {
         out.op("DUMP".into(), show_dump(&d));
     }
 
-    /// one input of the modelled client (not a concurrent EXEC)
-    async fn input(&mut self, out: &mut Out, inp: Inp) {
-        let perr = matches!(inp, Inp::Perr(_));
+    /// observations of the store taken before an input is sent (`view` = a dump taken earlier,
+    /// valid as long as nothing has changed the store since: pipelined blocks)
+    async fn pre(&self, inp: &Inp, view: Option<&Vec<(String, Typed)>>) -> (Option<Vec<(String, Typed)>>, Vec<(String, Typed, Typed)>) {
         let before = if self.in_multi && matches!(inp, Inp::Exec(_) | Inp::Discard) {
-            Some(dump(&self.st).await)
+            Some(match view {
+                Some(v) => v.clone(),
+                None => dump(&self.st).await,
+            })
         } else {
             None
         };
-        let changed = if self.in_multi && matches!(inp, Inp::Exec(_)) {
-            let mut ch: Vec<(String, Typed, Typed)> = Vec::new();
+        let mut changed: Vec<(String, Typed, Typed)> = Vec::new();
+        if self.in_multi && matches!(inp, Inp::Exec(_)) {
             for (k, t0) in &self.watched {
-                let now = typed(&self.st, k).await;
+                let now = match view {
+                    Some(v) => lookup(v, k),
+                    None => typed(&self.st, k).await,
+                };
                 if now != *t0 {
-                    ch.push((k.clone(), t0.clone(), now));
+                    changed.push((k.clone(), t0.clone(), now));
                 }
             }
-            ch
-        } else {
-            Vec::new()
-        };
+        }
+        (before, changed)
+    }
+
+    /// one input of the modelled client (not a concurrent EXEC)
+    async fn input(&mut self, out: &mut Out, inp: Inp) {
+        let pre = self.pre(&inp, None).await;
         let r = self.c1.call(&inp.args()).await;
+        self.post(out, inp, r, pre, None).await;
+    }
+
+    /// `[WATCH] MULTI body EXEC|DISCARD` written to the socket in ONE write (how clients usually
+    /// send a transaction); replies read afterwards.  Nothing in the block but its final EXEC
+    /// changes the store, so the observations taken before the write are valid for every element.
+    async fn pipelined(&mut self, out: &mut Out, inps: Vec<Inp>) {
+        out.count("pipelined-block");
+        let view = dump(&self.st).await;
+        let mut buf = Vec::new();
+        for i in &inps {
+            buf.extend(frame(&i.args()));
+        }
+        self.c1.write(&buf).await;
+        let mut rs = Vec::new();
+        for _ in &inps {
+            rs.push(self.c1.recv().await);
+        }
+        self.text.push("(next block sent in one write)".into());
+        for (i, r) in inps.into_iter().zip(rs) {
+            let pre = self.pre(&i, Some(&view)).await;
+            self.post(out, i, r, pre, Some(&view)).await;
+        }
+    }
+
+    async fn post(&mut self, out: &mut Out, inp: Inp, r: Rv, pre: (Option<Vec<(String, Typed)>>, Vec<(String, Typed, Typed)>), view: Option<&Vec<(String, Typed)>>) {
+        let perr = matches!(inp, Inp::Perr(_));
+        let (before, changed) = pre;
         self.text.push(inp.text());
         out.op(inp.line(), show(&r, perr));
         out.count(&format!(
@@ -526,7 +567,10 @@ impl World {
                 }
                 Inp::Watch(ks) => {
                     for k in ks {
-                        let t = typed(&self.st, k).await;
+                        let t = match view {
+                            Some(v) => lookup(v, k),
+                            None => typed(&self.st, k).await,
+                        };
                         out.count(&format!("watch:type:{}", match &t { Typed::Missing => "missing", Typed::Str(_) => "string", Typed::List(_) => "list", Typed::Other(_) => "other" }));
                         self.watched.push((k.clone(), t));
                     }
@@ -817,6 +861,7 @@ async fn session(out: &mut Out, rng: &mut Rng, script: Option<(usize, Vec<Step>)
                 Step::In(i) => w.input(out, i).await,
                 Step::Other(c) => w.foreign(out, c).await,
                 Step::ConcExec(sc) => w.concurrent_exec(out, sc).await,
+                Step::Block(b) => w.pipelined(out, b).await,
             }
         }
     } else {
@@ -834,7 +879,27 @@ async fn session(out: &mut Out, rng: &mut Rng, script: Option<(usize, Vec<Step>)
                         let ks = (0..n).map(|_| key(rng)).collect();
                         w.input(out, Inp::Watch(ks)).await
                     }
-                    22..=46 => w.input(out, Inp::Multi).await,
+                    22..=29 => {
+                        let mut blk = Vec::new();
+                        if rng.chance(1, 2) {
+                            blk.push(Inp::Watch(vec![key(rng)]));
+                        }
+                        blk.push(Inp::Multi);
+                        for _ in 0..rng.range(0, 6) {
+                            blk.push(match rng.below(20) {
+                                0 => Inp::Multi,
+                                1 => Inp::Watch(vec![key(rng)]),
+                                2 => Inp::Unk,
+                                3 => Inp::Perr(rng.next()),
+                                4 => Inp::Unwatch,
+                                5 => Inp::Local(rng.below(4) as u8),
+                                _ => Inp::Cmd(gen_cmd(rng, false)),
+                            });
+                        }
+                        blk.push(if rng.chance(1, 8) { Inp::Discard } else { Inp::Exec(vec![]) });
+                        w.pipelined(out, blk).await
+                    }
+                    30..=46 => w.input(out, Inp::Multi).await,
                     47..=61 => w.input(out, Inp::Cmd(gen_cmd(rng, false))).await,
                     62..=66 => w.input(out, Inp::Unwatch).await,
                     67..=69 => w.input(out, Inp::Exec(vec![])).await,
@@ -908,6 +973,8 @@ enum Step {
     In(Inp),
     Other(Cmd),
     ConcExec(Vec<Vec<Cmd>>),
+    /// inputs written in one write
+    Block(Vec<Inp>),
 }
 
 /// fixed corpus: the witnesses of the Lean counterexample theorems, replayed first on every run
@@ -942,6 +1009,31 @@ fn corpus() -> Vec<(usize, Vec<Step>)> {
         v.push((shards, vec![
             Step::In(Inp::Multi),
             Step::In(Inp::Local(0)),
+            Step::In(Inp::Exec(vec![])),
+        ]));
+        // a transaction sent in one write; GETs / SETs pipelined inside MULTI (the shape the
+        // connection's batch collectors and fast path look for: they must stay out of a transaction)
+        v.push((shards, vec![
+            Step::Other(Cmd::Set("k".into(), b("5"))),
+            Step::Block(vec![
+                Inp::Watch(vec!["k".into()]),
+                Inp::Multi,
+                Inp::Cmd(Cmd::Get("k".into())),
+                Inp::Cmd(Cmd::Get("n".into())),
+                Inp::Cmd(Cmd::Set("n".into(), b("1"))),
+                Inp::Cmd(Cmd::Set("x".into(), b("2"))),
+                Inp::Cmd(Cmd::Get("n".into())),
+                Inp::Exec(vec![]),
+            ]),
+            Step::In(Inp::Multi),
+            Step::Block(vec![
+                Inp::Cmd(Cmd::Get("k".into())),
+                Inp::Cmd(Cmd::Get("n".into())),
+                Inp::Cmd(Cmd::Get("x".into())),
+                Inp::Cmd(Cmd::Set("k".into(), b("6"))),
+                Inp::Cmd(Cmd::Set("n".into(), b("7"))),
+                Inp::Cmd(Cmd::Set("x".into(), b("8"))),
+            ]),
             Step::In(Inp::Exec(vec![])),
         ]));
         // healthy paths: string watch detected, DISCARD, EXECABORT, nested MULTI, WATCH in MULTI
